@@ -21,6 +21,9 @@ func expectedFuncs(c *gen.Case) map[string]bool {
 		for _, m := range it.Methods {
 			res[m.Name] = true
 		}
+		for _, m := range it.Embeds {
+			res[m.Name] = true
+		}
 	}
 	return res
 }
@@ -83,6 +86,7 @@ func checkC14(r *report.Report, tier string, seed int64) error {
 	opt.Malformed = 0.5
 	opt.Hooks = 0.5
 	opt.Explicit = 0.8
+	opt.Embedding = 0.25
 	r.Rule = "generated setup packages biased to malformed input: byte strings in notation position (valid and invalid UTF-8, NBSP, missing arguments, unknown operations), :conv/:preprocess/:postprocess naming functions of every arity and result shape (missing, unexported, variables, non-functions), error-/interface-/func-typed fields, zero-parameter/zero-result/non-struct/pointer-to-pointer methods, files without converter interface; binary run under a time limit; non-trivial = the run ends in an error or panic, or has at least one explicit notation; distinct by file contents"
 	return pipelineCheck(r, "C14", seed, n, opt, func(i int) *gen.Case { return gen.GenerateMalformed(seed, i, opt) },
 		func(cr *caseRun) bool { return cr.Impl.Status != 0 || len(cr.C.Features) > 3 }, c14Oracle)
